@@ -30,29 +30,29 @@ func (r SatResult) String() string { return [...]string{"unsat", "sat", "unknown
 
 type SolverStats struct {
 	Queries, SatN, UnsatN, UnknownN, Errors, Fallbacks, TacticRetries int64
-	Nanos                                               int64
+	Nanos                                                             int64
 }
 
 var gStats SolverStats
 
 type Session struct {
-	cmd     *exec.Cmd
-	in      io.WriteCloser
-	out     *bufio.Reader
-	bin     string
-	args    []string
-	defined map[*Term]string
-	pathLog []string // declarations, definitions, assertions of the current path
-	pending strings.Builder
-	marker  int
-	timeout int // ms per query (tactic stage)
-	incTimeout int // ms for the incremental stage
-	tacticOnly bool // skip the incremental stage
-	hardTimeout int // ms for the one-shot fallback
-	teeDir  string
-	teeN    *atomic.Int64
-	teeMax  int64
-	lastErr string
+	cmd         *exec.Cmd
+	in          io.WriteCloser
+	out         *bufio.Reader
+	bin         string
+	args        []string
+	defined     map[*Term]string
+	pathLog     []string // declarations, definitions, assertions of the current path
+	pending     strings.Builder
+	marker      int
+	timeout     int  // ms per query (tactic stage)
+	incTimeout  int  // ms for the incremental stage
+	tacticOnly  bool // skip the incremental stage
+	hardTimeout int  // ms for the one-shot fallback
+	teeDir      string
+	teeN        *atomic.Int64
+	teeMax      int64
+	lastErr     string
 }
 
 func NewSession(bin string, args []string) (*Session, error) {
